@@ -123,6 +123,7 @@ func mkBox(kind string, capacity int) *box {
 // Act is one step of the enabling script.
 type Act struct {
 	Op     string `json:"op"`               // add | pop | close | cancel
+	Then   string `json:"then,omitempty"`   // "close": the container is closed right after the burst, before anybody has reacted to it
 	K      int    `json:"k,omitempty"`      // burst size
 	End    int    `json:"end,omitempty"`    // which end (deque)
 	Split  int    `json:"split,omitempty"`  // number of goroutines issuing the burst
@@ -159,7 +160,18 @@ const tWake = "TestWakeups"
 
 // runCase executes the scenario once.  It returns a description of the
 // violation, or "".
-func runCase(c *Case) (string, string) {
+func runCase(c *Case) (key, why string) {
+	// every step of the harness is a call that must not block (adds,
+	// pops, Len, Close) or a bounded poll: a case that does not end within
+	// many quiescence limits is stuck inside the library
+	finished, stuck := vkit.Bounded(12*vkit.Limit(), func() { key, why = runCaseInner(c) })
+	if !finished {
+		return "hang", fmt.Sprintf("the scenario has not ended after %v: a call that never blocks by contract (Len / Close / a non-blocking add or pop) or a released waiter is stuck inside the library:\n%s", 12*vkit.Limit(), stuck)
+	}
+	return key, why
+}
+
+func runCaseInner(c *Case) (string, string) {
 	if c.Procs > 0 {
 		old := runtime.GOMAXPROCS(c.Procs)
 		defer runtime.GOMAXPROCS(old)
@@ -302,7 +314,7 @@ func runCase(c *Case) (string, string) {
 	}
 	for si, a := range c.Script {
 		vkit.Yield(a.Yield)
-		desc := fmt.Sprintf("step %d (%s k=%d)", si, a.Op, a.K)
+		desc := fmt.Sprintf("step %d (%s k=%d %s)", si, a.Op, a.K, a.Then)
 		switch a.Op {
 		case "add", "pop":
 			split := a.Split
@@ -339,6 +351,10 @@ func runCase(c *Case) (string, string) {
 				}(vals)
 			}
 			bw.Wait()
+			if a.Then == "close" {
+				b.close()
+				closed = true
+			}
 		case "close":
 			b.close()
 			closed = true
@@ -459,8 +475,11 @@ func genCase(t *rapid.T) *Case {
 				}
 			}
 		}
+		if (a.Op == "add" || a.Op == "pop") && rapid.IntRange(0, 7).Draw(t, "thenClose") == 0 {
+			a.Then = "close"
+		}
 		c.Script = append(c.Script, a)
-		if a.Op == "close" {
+		if a.Op == "close" || a.Then == "close" {
 			break
 		}
 	}
@@ -477,6 +496,10 @@ func classes(c *Case) (cls []string, nontrivial bool) {
 		if a.Op == "close" || a.Op == "cancel" {
 			racing = true
 			cls = append(cls, "has-"+a.Op)
+		}
+		if a.Then == "close" {
+			racing = true
+			cls = append(cls, "burst-then-close")
 		}
 	}
 	if maxBurst >= 2 {
